@@ -297,6 +297,11 @@ def install():
                 if t is not None and t.cur is not None and self is t.mediator._scheduler:
                     t.cur["pick"] = t.hidx[id(res)]
                     t.cur["time"] = t.pending_time.get(t.hidx[id(res)])
+                    if t.cur["time"] is None:
+                        # resumed run: the candidate was pushed before the dump; basic event handlers keep it
+                        et = getattr(res, "_event_time", None)
+                        if et is not None and hasattr(et, "quotient"):
+                            t.cur["time"] = [f2b(et.quotient), f2b(et.remainder)]
                 return res
             return w
         S.push_event = wrap_push(S.push_event)
